@@ -55,6 +55,23 @@ class _K:
         return k
 
 
+def _known_nonempty(it):
+    if isinstance(it, (ast.Tuple, ast.List)) and it.elts:
+        return True
+    if isinstance(it, ast.Call) and isinstance(it.func, ast.Name) and it.func.id == 'range' and not it.keywords:
+        vals = []
+        for a in it.args:
+            if isinstance(a, ast.Constant) and isinstance(a.value, int):
+                vals.append(a.value)
+            else:
+                return False
+        if len(vals) == 1:
+            return vals[0] >= 1
+        if len(vals) == 2:
+            return vals[1] > vals[0]
+    return False
+
+
 def default_may_raise(node):
     """node: stmt or expr evaluated at one CFG node."""
     if isinstance(node, (ast.Raise, ast.Assert, ast.Delete, ast.Import, ast.ImportFrom)):
@@ -157,7 +174,6 @@ class CFG:
         if isinstance(s, (ast.For, ast.AsyncFor)):
             it = self._new('iterinit', s, s.iter, tag)      # evaluates the iterable once
             h = self._new('for', s, None, tag)               # binds the target / decides exhaustion
-            self._edge(it, h, 'next')
             if self._raises(s.iter):
                 self._edge(it, k.exc, 'exc')
             after = self._seq(s.orelse, k, tag) if s.orelse else k.next
@@ -165,6 +181,14 @@ class CFG:
             self._edge(h, body, 'iter')
             self._edge(h, after, 'exhaust')
             self._edge(h, k.exc, 'exc')     # next() of an arbitrary iterator may raise
+            if _known_nonempty(s.iter):
+                # `for k in range(2)` / a non-empty literal is known to execute: the first header
+                # cannot take the exhaust edge (DESIGN 3.2)
+                h0 = self._new('for', s, None, tag)
+                self._edge(it, h0, 'next')
+                self._edge(h0, body, 'iter')
+            else:
+                self._edge(it, h, 'next')
             return it
         if isinstance(s, (ast.With, ast.AsyncWith)):
             w = self._new('with', s, None, tag)
